@@ -109,6 +109,8 @@ pub fn recv_run(case: &RecvCase) -> RecvOutcome {
     if server_me {
         let mut b = h3::server::builder();
         b.send_grease(false).max_field_section_size(case.limit);
+        // every other setter is called AFTER the limit, with its default: none of them may touch the limit
+        b.enable_webtransport(false).enable_extended_connect(false).enable_datagram(false);
         ex.spawn("main", server_main(net.clone(), b, ex.spawner(), drv.clone(), handlers.clone(), false, 0));
     } else {
         let (net2, msg2, sp, limit) = (net.clone(), client_msg.clone(), ex.spawner(), case.limit);
@@ -116,6 +118,7 @@ pub fn recv_run(case: &RecvCase) -> RecvOutcome {
         ex.spawn("main", async move {
             let mut b = h3::client::builder();
             b.send_grease(false).max_field_section_size(limit);
+            b.enable_extended_connect(false).enable_datagram(false);
             let (mut conn, mut sr): (CliConn, CliSend) = b.build(SimConn::new(&net2, CLIENT)).await.unwrap();
             sp.spawn("driver", async move {
                 let _ = std::future::poll_fn(|cx| conn.poll_close(cx)).await;
@@ -721,7 +724,7 @@ pub fn run(args: &Args) -> i32 {
     let thorough = args.tier == Tier::Thorough;
     let mut rep = Report::new("C10", args.tier, args.seed, "model_checking");
     rep.exhaustive = true;
-    rep.rule = "receive: limits {0, 1, 33, 34, 35, 64, 89, 100, 167, 16383, 2^62-1} x sections whose RFC size sweeps L-2..L+2 (built by stretching one value and by adding a field, so the per-field +32 is exercised) plus the empty and the minimal section, reference-encoded (literal representations) and injected by a scripted peer as request headers, response headers, request trailers, response trailers (client side: through the original SendRequest handle and through a clone of it); the 431 path with the client advertising {nothing, 41, 42, 43}. send: the same limits advertised by a scripted peer x application sections sweeping L-2..L+2 x {send_request, send_response, request trailers, response trailers} x SETTINGS delivered {before the stream exists (and applied), after the stream exists but before the attempt (and applied), while send_request is parked waiting for stream credit (and applied before the credit comes), after a first request of the connection has been answered (the attempt is made on a second request), together with the request before the server first looks at the connection (request answered inline, accept() not polled again before the answer), after the attempt, never}; every size also reached with a cookie field of three cookie-pairs (which a sender may split into one field line per pair); every HEADERS frame on the wire is decoded and measured by refimpl. states = distinct cases; non-trivial = cases at distance <= 2 from the limit.".into();
+    rep.rule = "receive (the limit is configured first and every other builder setter is called after it with its default value): limits {0, 1, 33, 34, 35, 64, 89, 100, 167, 16383, 2^62-1} x sections whose RFC size sweeps L-2..L+2 (built by stretching one value and by adding a field, so the per-field +32 is exercised) plus the empty and the minimal section, reference-encoded (literal representations) and injected by a scripted peer as request headers, response headers, request trailers, response trailers (client side: through the original SendRequest handle and through a clone of it); the 431 path with the client advertising {nothing, 41, 42, 43}. send: the same limits advertised by a scripted peer x application sections sweeping L-2..L+2 x {send_request, send_response, request trailers, response trailers} x SETTINGS delivered {before the stream exists (and applied), after the stream exists but before the attempt (and applied), while send_request is parked waiting for stream credit (and applied before the credit comes), after a first request of the connection has been answered (the attempt is made on a second request), together with the request before the server first looks at the connection (request answered inline, accept() not polled again before the answer), after the attempt, never}; every size also reached with a cookie field of three cookie-pairs (which a sender may split into one field line per pair); every HEADERS frame on the wire is decoded and measured by refimpl. states = distinct cases; non-trivial = cases at distance <= 2 from the limit.".into();
     rep.assumptions = vec![
         "refimpl::fields::section_size = sum(name + value + 32) (RFC 9114 4.2.2)".into(),
         "the smallest request h3 delivers (CONNECT + :authority) has size 89: smaller limits are exercised at the boundary through trailers (regular fields only) and with always-oversize heads".into(),
